@@ -1,8 +1,481 @@
 import Grass.Proto
-/- Core `Units` — stub; replaced by the model (see DESIGN.md §8). -/
+import Grass.Num
+import Grass.Generated.UnitKinds
+import Grass.Generated.UnitTable
+/-
+  C08 core — units: conversion table, compatibility, unit algebra.
+
+  Mirrors (file:line of /repo/crates/compiler/src):
+    unit/conversion.rs:15     UNIT_CONVERSION_TABLE        → Generated/UnitTable.lean (translator)
+    unit/mod.rs:10,125,191    enum Unit, UnitKind, kind()  → Generated/UnitKinds.lean (translator)
+    unit/mod.rs:112           are_any_convertible
+    unit/mod.rs:138-175       Unit::new, numer_and_denom, invert, is_complex, comparable
+    unit/mod.rs:259           Display for Unit
+    value/number.rs:158       Number::convert
+    value/sass_number.rs:24   conversion_factor
+    value/sass_number.rs:56   multiply_units
+    value/sass_number.rs:245  PartialEq for SassNumber (canonical unit of the kind)
+    evaluate/bin_op.rs        add / sub / mul / div / rem ; value/mod.rs:341 Value::cmp
+    builtin/functions/math.rs:73,122,168 comparable, min, max ; meta.rs:62 unit
+    serializer.rs:543-566     visit_number (complex units are not CSS)
+
+  The numeric side reuses `Grass.Num` (doubles as exact rationals, `rnd53`).  Table constants
+  are kept as expression trees and evaluated twice: symbolically (`Sym` = rational × power of π,
+  used by the theorems) and in f64 arithmetic (used to predict grass's printed text).
+-/
 namespace Grass.Units
+open Grass.Generated Grass.Num
+
+/-! ## symbolic factors: `q · π^k` -/
+
+structure Sym where
+  q : Rat
+  k : Int
+  deriving DecidableEq, Repr
+
+def Sym.one : Sym := ⟨1, 0⟩
+def Sym.mul (a b : Sym) : Sym := ⟨a.q * b.q, a.k + b.k⟩
+def Sym.inv (a : Sym) : Sym := ⟨1 / a.q, -a.k⟩
+def Sym.div (a b : Sym) : Sym := a.mul b.inv
+def Sym.ofRat (q : Rat) : Sym := ⟨q, 0⟩
+
+def symOf : CExpr → Sym
+  | .lit n d => ⟨(n : Rat) / (d : Rat), 0⟩
+  | .pi => ⟨1, 1⟩
+  | .mul a b => (symOf a).mul (symOf b)
+  | .div a b => (symOf a).div (symOf b)
+
+/-- `std::f64::consts::PI` = 0x400921FB54442D18 = 884279719003555 / 2^48 -/
+def piF64 : Rat := 884279719003555 / 281474976710656
+
+/-- the constant as Rust evaluates it: every literal and every operation rounded to f64 -/
+def f64Of : CExpr → Rat
+  | .lit n d => rnd53 ((n : Rat) / (d : Rat))
+  | .pi => piF64
+  | .mul a b => rnd53 (f64Of a * f64Of b)
+  | .div a b => rnd53 (f64Of a / f64Of b)
+
+def lookup (t f : KU) : List (KU × KU × CExpr) → Option CExpr
+  | [] => none
+  | (t', f', e) :: r => if t' = t ∧ f' = f then some e else lookup t f r
+
+/-- `UNIT_CONVERSION_TABLE.get(to)?.get(from)` -/
+def tableGet (to frm : KU) : Option CExpr := lookup to frm tableEntries
+
+def factorSym (to frm : KU) : Option Sym := (tableGet to frm).map symOf
+def factorF64 (to frm : KU) : Option Rat := (tableGet to frm).map f64Of
+
+/-! ## the CSS ratios of the property statement (hand-written, independent of the code)
+
+  Size of one unit of each convertible unit in a base unit of its dimension:
+  1in = 96px = 2.54cm = 25.4mm = 101.6q = 72pt = 6pc ; 1turn = 360deg = 400grad = 2π rad ;
+  1s = 1000ms ; 1kHz = 1000Hz ; 1dppx = 96dpi, 1dpcm = 2.54dpi. -/
+
+inductive Dim where
+  | length | angle | time | frequency | resolution
+  deriving DecidableEq, Repr
+
+def cssSize : KU → Option (Dim × Sym)
+  | .In => some (.length, ⟨1, 0⟩)
+  | .Px => some (.length, ⟨1 / 96, 0⟩)
+  | .Cm => some (.length, ⟨100 / 254, 0⟩)
+  | .Mm => some (.length, ⟨10 / 254, 0⟩)
+  | .Q => some (.length, ⟨10 / 1016, 0⟩)
+  | .Pt => some (.length, ⟨1 / 72, 0⟩)
+  | .Pc => some (.length, ⟨1 / 6, 0⟩)
+  | .Turn => some (.angle, ⟨1, 0⟩)
+  | .Deg => some (.angle, ⟨1 / 360, 0⟩)
+  | .Grad => some (.angle, ⟨1 / 400, 0⟩)
+  | .Rad => some (.angle, ⟨1 / 2, -1⟩)
+  | .S => some (.time, ⟨1, 0⟩)
+  | .Ms => some (.time, ⟨1 / 1000, 0⟩)
+  | .Khz => some (.frequency, ⟨1, 0⟩)
+  | .Hz => some (.frequency, ⟨1 / 1000, 0⟩)
+  | .Dpi => some (.resolution, ⟨1, 0⟩)
+  | .Dppx => some (.resolution, ⟨96, 0⟩)
+  | .Dpcm => some (.resolution, ⟨254 / 100, 0⟩)
+  | _ => none
+
+/-- the value in `to` of one `frm`, by the CSS ratios; `none` when not convertible -/
+def cssSpec (to frm : KU) : Option Sym :=
+  match cssSize to, cssSize frm with
+  | some (d₁, s₁), some (d₂, s₂) => if d₁ = d₂ then some (s₂.div s₁) else none
+  | _, _ => none
+
+/-! ## units -/
+
+/-- an atomic unit: a known one or an unknown identifier -/
+inductive AU where
+  | known (k : KU)
+  | unknown (n : Nat)
+  deriving DecidableEq, Repr
+
+/-- `enum Unit`: `None`, a single unit, or `Complex { numer, denom }` -/
+inductive U where
+  | none
+  | one (a : AU)
+  | complex (numer denom : List AU)
+  deriving DecidableEq, Repr
+
+def AU.kind : AU → Kind
+  | .known k => k.kind
+  | .unknown _ => kindOfUnknown
+
+def U.kind : U → Kind
+  | .none => kindOfNone
+  | .one a => a.kind
+  | .complex _ _ => kindOfComplex
+
+/-- kinds for which `comparable` demands identical units (mod.rs:171) -/
+def Kind.selfOnly (k : Kind) : Bool := k = .fontRelative || k = .viewportRelative || k = .other
+
+/-- `Unit::comparable` (mod.rs:166) -/
+def comparable (a b : U) : Bool :=
+  if b = .none then true
+  else if a.kind.selfOnly then decide (a = b)
+  else if a.kind = .none then true
+  else decide (b.kind = a.kind)
+
+/-- `Unit::new` (mod.rs:138) -/
+def U.mk (numer denom : List AU) : U :=
+  match numer, denom with
+  | [], [] => .none
+  | [a], [] => .one a
+  | _, _ => .complex numer denom
+
+/-- `numer_and_denom` (mod.rs:148) -/
+def U.parts : U → List AU × List AU
+  | .none => ([], [])
+  | .one a => ([a], [])
+  | .complex n d => (n, d)
+
+def U.invert (u : U) : U := U.mk u.parts.2 u.parts.1
+
+/-- `is_complex` (mod.rs:162) -/
+def U.isComplex : U → Bool
+  | .complex n d => n.length != 1 || !d.isEmpty
+  | _ => false
+
+def AU.name : AU → String
+  | .known k => k.name
+  | .unknown n => s!"foo{n}"
+
+/-- `Display for Unit` (mod.rs:259) -/
+def U.name : U → String
+  | .none => ""
+  | .one a => a.name
+  | .complex n d =>
+    let nr := "*".intercalate (n.map AU.name)
+    let dr := "*".intercalate (d.map AU.name)
+    if d.isEmpty then nr
+    else if n.isEmpty && d.length == 1 then dr ++ "^-1"
+    else if n.isEmpty then "(" ++ dr ++ ")^-1"
+    else nr ++ "/" ++ dr
+
+/-- `conversion_factor(from, to)` (sass_number.rs:24) in f64 -/
+def convFactorF (frm to : AU) : Option Rat :=
+  if frm = to then some 1 else
+  match frm, to with
+  | .known f, .known t => factorF64 t f
+  | _, _ => none
+
+/-- symbolic version -/
+def convFactorS (frm to : AU) : Option Sym :=
+  if frm = to then some Sym.one else
+  match frm, to with
+  | .known f, .known t => factorSym t f
+  | _, _ => none
+
+/-- `are_any_convertible` (mod.rs:112) -/
+def anyConvertible (xs ys : List AU) : Bool :=
+  xs.any fun x => ys.any fun y => comparable (.one x) (.one y)
+
+/-! ## numbers with units -/
+
+structure SN where
+  num : D
+  unit : U
+  deriving DecidableEq, Repr
+
+inductive UErr where
+  | incompatible | notCss | unsupported | tableMissing
+  deriving DecidableEq, Repr
+
+/-- `Number::convert(from, to)` (number.rs:158): `self * TABLE[to][from]`; a missing entry panics. -/
+def convert (n : D) (frm to : U) : Except UErr D :=
+  if frm = .none ∨ to = .none ∨ frm = to then .ok n else
+  match frm, to with
+  | .one (.known f), .one (.known t) =>
+    match factorF64 t f with
+    | some c => match D.mul n (.fin c) with
+      | some r => .ok r
+      | none => .error .unsupported
+    | none => .error .tableMissing
+  | _, _ => .error .tableMissing
+
+def liftD (o : Option D) : Except UErr D :=
+  match o with
+  | some d => .ok d
+  | none => .error .unsupported
+
+/-- result unit of `+ - %`: the left operand's, the other's when the left is unitless -/
+def resultUnit (a b : U) : U := if a = b then a else if a = .none then b else a
+
+/-- bin_op.rs:68 `add` / :213 `sub` -/
+def addSub (sub : Bool) (a b : SN) : Except UErr SN :=
+  if !comparable a.unit b.unit then .error .incompatible else
+  let op := fun x y => liftD (if sub then D.sub x y else D.add x y)
+  if a.unit = b.unit ∨ a.unit = .none ∨ b.unit = .none then
+    (op a.num b.num).map fun r => ⟨r, resultUnit a.unit b.unit⟩
+  else
+    match convert b.num b.unit a.unit with
+    | .ok c => (op a.num c).map fun r => ⟨r, a.unit⟩
+    | .error e => .error e
+
+/-- bin_op.rs:504 `rem` -/
+def rem (a b : SN) : Except UErr SN :=
+  if !comparable a.unit b.unit then .error .incompatible else
+  match convert b.num b.unit a.unit with
+  | .ok c => (liftD (moduloD a.num c)).map fun r => ⟨r, resultUnit a.unit b.unit⟩
+  | .error e => .error e
+
+/-- value/mod.rs:341 `Value::cmp` on two numbers: IEEE order after converting the right operand -/
+def cmpSN (a b : SN) : Except UErr (Option Ordering) :=
+  if !comparable a.unit b.unit then .error .incompatible else
+  if a.unit = b.unit ∨ a.unit = .none ∨ b.unit = .none then .ok (cmpD true a.num b.num)
+  else match convert b.num b.unit a.unit with
+    | .ok c => .ok (cmpD true a.num c)
+    | .error e => .error e
+
+def U.canonical (u : U) : Option U := u.kind.canonical.map fun k => .one (.known k)
+
+/-- sass_number.rs:245 `PartialEq for SassNumber` -/
+def eqSN (a b : SN) : Except UErr Bool :=
+  if !comparable a.unit b.unit then .ok false else
+  if (b.unit = .none ∨ a.unit = .none) ∧ a.unit ≠ b.unit then .ok false else
+  match a.unit.canonical with
+  | some c =>
+    if a.unit ≠ b.unit then
+      match convert a.num a.unit c, convert b.num b.unit c with
+      | .ok x, .ok y => .ok (eqD x y)
+      | .error e, _ => .error e
+      | _, .error e => .error e
+    else .ok (eqD a.num b.num)
+  | none =>
+    match convert b.num b.unit a.unit with
+    | .ok y => .ok (eqD a.num y)
+    | .error e => .error e
+
+/-- math.rs:122 `min` / :168 `max` with two arguments: the second replaces the first when it is
+    strictly smaller / greater (`cmp(second, first)`). -/
+def minMax (isMax : Bool) (a b : SN) : Except UErr SN :=
+  match cmpSN b a with
+  | .error e => .error e
+  | .ok o => .ok (if o = some (if isMax then Ordering.gt else .lt) then b else a)
+
+/-- remove the first element of `ds` convertible with `n`; returns the factor and the rest -/
+def removeFirst (n : AU) : List AU → Option (Rat × List AU)
+  | [] => none
+  | d :: ds =>
+    match convFactorF d n with
+    | some f => some (f, ds)
+    | none => (removeFirst n ds).map fun (f, r) => (f, d :: r)
+
+/-- the two cancellation loops of `multiply_units` (sass_number.rs:90-131) -/
+def cancelLoop : List AU → List AU → Option D → List AU → Option D × List AU × List AU
+  | [], ds, num, acc => (num, acc, ds)
+  | n :: ns, ds, num, acc =>
+    match removeFirst n ds with
+    | some (f, ds') => cancelLoop ns ds' (num.bind fun x => D.div x (.fin f)) acc
+    | none => cancelLoop ns ds num (acc ++ [n])
+
+/-- `multiply_units` (sass_number.rs:56) -/
+def multiplyUnits (selfUnit : U) (num : D) (other : U) : Except UErr SN :=
+  let (nu, du) := selfUnit.parts
+  let (on, od) := other.parts
+  if nu.isEmpty ∧ od.isEmpty ∧ !anyConvertible du on then .ok ⟨num, U.mk on du⟩
+  else if nu.isEmpty ∧ du.isEmpty then .ok ⟨num, U.mk on od⟩
+  else if !nu.isEmpty ∧ on.isEmpty ∧ (od.isEmpty ∨ (du.isEmpty ∧ !anyConvertible nu od)) then
+    .ok ⟨num, U.mk nu od⟩
+  else
+    let (num1, newNumer1, otherDenom) := cancelLoop nu od (some num) []
+    let (num2, newNumer2, denom) := cancelLoop on du num1 newNumer1
+    match num2 with
+    | some r => .ok ⟨r, U.mk newNumer2 (denom ++ otherDenom)⟩
+    | none => .error .unsupported
+
+/-- bin_op.rs:348 `mul` -/
+def mulSN (a b : SN) : Except UErr SN :=
+  match D.mul a.num b.num with
+  | none => .error .unsupported
+  | some p => if b.unit = .none then .ok ⟨p, a.unit⟩ else multiplyUnits a.unit p b.unit
+
+/-- bin_op.rs:456 `div` -/
+def divSN (a b : SN) : Except UErr SN :=
+  match D.div a.num b.num with
+  | none => .error .unsupported
+  | some p => if b.unit = .none then .ok ⟨p, a.unit⟩ else multiplyUnits a.unit p b.unit.invert
+
+/-- serializer.rs:543 `visit_number`: complex units are an error unless inspecting -/
+def printSN (inspect compressed : Bool) (n : SN) : Except UErr String :=
+  if !inspect && n.unit.isComplex then .error .notCss
+  else .ok (String.ofList (printD false compressed n.num) ++ n.unit.name)
+
+/-! ## the operations of the correspondence run -/
+
+inductive Op where
+  | add | sub | lt | eq | rem | min | max | div | mul | divInspect | mulInspect | compatible | unitMul | unitDiv
+  deriving DecidableEq, Repr
+
+def boolS (b : Bool) : String := if b then "true" else "false"
+
+def runOp (compressed : Bool) (o : Op) (a b : SN) : Except UErr String :=
+  match o with
+  | .add => (addSub false a b).bind (printSN false compressed)
+  | .sub => (addSub true a b).bind (printSN false compressed)
+  | .rem => (rem a b).bind (printSN false compressed)
+  | .min => (minMax false a b).bind (printSN false compressed)
+  | .max => (minMax true a b).bind (printSN false compressed)
+  | .lt => (cmpSN a b).map fun o => boolS (o == some .lt)
+  | .eq => (eqSN a b).map boolS
+  | .div => (divSN a b).bind (printSN false compressed)
+  | .mul => (mulSN a b).bind (printSN false compressed)
+  | .divInspect => (divSN a b).bind (printSN true false)       -- inspect() is always expanded
+  | .mulInspect => (mulSN a b).bind (printSN true false)
+  | .compatible => .ok (boolS (comparable a.unit b.unit))
+  | .unitMul => (mulSN a b).map fun r => "\"" ++ r.unit.name ++ "\""
+  | .unitDiv => (divSN a b).map fun r => "\"" ++ r.unit.name ++ "\""
+
+/-! ## the property predicate P̂ on an observation (independent of the table: uses `cssSpec`) -/
+
+/-- rational enclosure of π (30 digits) -/
+def piLo : Rat := 3141592653589793238462643383279 / 1000000000000000000000000000000
+def piHi : Rat := 3141592653589793238462643383280 / 1000000000000000000000000000000
+
+/-- enclosure `[lo, hi]` of `y · s` for a Sym `s` with `|k| ≤ 1`, `s.q > 0` -/
+def symScale (s : Sym) (y : Rat) : Option (Rat × Rat) :=
+  let (a, b) :=
+    if s.k = 0 then (s.q, s.q)
+    else if s.k = 1 then (s.q * piLo, s.q * piHi)
+    else if s.k = -1 then (s.q / piHi, s.q / piLo)
+    else (0, 0)
+  if s.k < -1 ∨ 1 < s.k then none
+  else if y ≥ 0 then some (y * a, y * b) else some (y * b, y * a)
+
+/-- convertible by the CSS ratios (known units), equal, or one side unitless -/
+def specComparable (a b : U) : Bool :=
+  if a = .none ∨ b = .none ∨ a = b then true else
+  match a, b with
+  | .one (.known x), .one (.known y) => (cssSpec x y).isSome
+  | _, _ => false
+
+/-- the factor by the CSS ratios for converting `b`'s unit into `a`'s (1 when no conversion happens) -/
+def specFactor (a b : U) : Option Sym :=
+  if a = .none ∨ b = .none ∨ a = b then some Sym.one else
+  match a, b with
+  | .one (.known x), .one (.known y) => cssSpec x y
+  | _, _ => none
+
+/-- printed number `txt` (without its unit) is within 10⁻¹⁰ (+ 2⁻⁴⁰ relative) of the enclosure -/
+def closeTo (txt : List Char) (lo hi : Rat) : Bool :=
+  match parseLit txt with
+  | some l =>
+    let v := l.value
+    let tol : Rat := 1 / 10000000000 + (absQ lo + absQ hi) / 1099511627776
+    decide (lo - tol ≤ v) && decide (v ≤ hi + tol)
+  | none => false
+
+/-- split a printed number into numeric text and unit text -/
+def splitNum (s : List Char) : List Char × List Char :=
+  let p := fun c => isDigit c || c == '.' || c == '-'
+  (s.takeWhile p, s.dropWhile p)
+
+/-- P̂ for `+` / `−` with finite operands `x`, `y`: the observation must be an error exactly when
+    the units are not convertible by the CSS ratios, and otherwise `x ± y·ratio` in the left
+    operand's unit (the other's when the left is unitless). `obs` = `some text` | `none` (incompatible-units error). -/
+def checkAddSub (sub : Bool) (x y : Rat) (a b : U) (obs : Option (List Char)) : Bool :=
+  match specFactor a b, obs with
+  | none, none => !specComparable a b
+  | none, some _ => false
+  | some _, none => false
+  | some f, some txt =>
+    let (nt, ut) := splitNum txt
+    match symScale f y with
+    | none => false
+    | some (lo, hi) =>
+      let (lo, hi) := if sub then (x - hi, x - lo) else (x + lo, x + hi)
+      String.ofList ut == (resultUnit a b).name && closeTo nt lo hi
+
+/-! ## driver -/
+open Grass.Proto
+
+def kuOfName (s : String) : Option KU := KU.all.find? fun k => k.name == s
+
+/-- unit token: `-` unitless, a display name, or `?<n>` unknown -/
+def auOfStr (s : String) : Option AU :=
+  if s.startsWith "?" then (s.drop 1).toString.toNat?.map AU.unknown
+  else (kuOfName s).map AU.known
+
+def uOfStr (s : String) : Option U :=
+  if s == "-" then some .none else (auOfStr s).map U.one
+
+def opOfStr (s : String) : Option Op :=
+  if s == "add" then some .add else if s == "sub" then some .sub else if s == "lt" then some .lt
+  else if s == "eq" then some .eq else if s == "rem" then some .rem else if s == "min" then some .min
+  else if s == "max" then some .max else if s == "div" then some .div else if s == "mul" then some .mul
+  else if s == "divInspect" then some .divInspect else if s == "mulInspect" then some .mulInspect
+  else if s == "compatible" then some .compatible else if s == "unitMul" then some .unitMul
+  else if s == "unitDiv" then some .unitDiv else none
+
+def snOf (lit unit : String) : Option SN := do
+  let l ← parseLit lit.toList
+  let d ← litD l
+  let u ← uOfStr unit
+  some ⟨d, u⟩
+
+def errS : UErr → String
+  | .incompatible => "err incompatible" | .notCss => "err notcss"
+  | .unsupported => "unsupported" | .tableMissing => "err table-missing"
 
 def handle : List String → String
+  -- op <c|e> <op> <x> <u> <y> <v> : the model's observation
+  | ["op", st, o, x, u, y, v] =>
+    match opOfStr o, snOf x u, snOf y v with
+    | some o, some a, some b =>
+      match runOp (st == "c") o a b with
+      | .ok s => "ok " ++ hexEncode s
+      | .error e => errS e
+    | _, _, _ => "bad-op"
+  -- check <add|sub> <x> <u> <y> <v> <hex text | !incompatible> : P̂ by the CSS ratios
+  | ["check", o, x, u, y, v, obs] =>
+    match snOf x u, snOf y v with
+    | some a, some b =>
+      match a.num.toRat?, b.num.toRat? with
+      | some xr, some yr =>
+        let ob : Option (Option (List Char)) :=
+          if obs == "!incompatible" then some none else (hexDecode obs).map fun s => some s.toList
+        match ob with
+        | some ob =>
+          if o == "add" then "ok " ++ boolStr (checkAddSub false xr yr a.unit b.unit ob)
+          else if o == "sub" then "ok " ++ boolStr (checkAddSub true xr yr a.unit b.unit ob)
+          else "bad-op"
+        | none => "bad-op"
+      | _, _ => "unsupported"
+    | _, _ => "bad-op"
+  -- comparable <u> <v> : code predicate | CSS-ratio predicate
+  | ["comparable", u, v] =>
+    match uOfStr u, uOfStr v with
+    | some a, some b => "ok " ++ boolStr (comparable a b) ++ " " ++ boolStr (specComparable a b)
+    | _, _ => "bad-op"
+  -- factor <to> <from> : the table constant as f64 (exact rational) and the symbolic value
+  | ["factor", t, f] =>
+    match kuOfName t, kuOfName f with
+    | some t, some f =>
+      match factorF64 t f, factorSym t f with
+      | some c, some s => s!"ok {c.num}/{c.den} {s.q.num}/{s.q.den} pi^{s.k}"
+      | _, _ => "ok none"
+    | _, _ => "bad-op"
+  | ["units"] => "ok " ++ " ".intercalate (KU.all.map KU.name)
   | _ => "bad-op"
 
 end Grass.Units
